@@ -584,7 +584,7 @@ func runOverlayTests(w *World, tests []overlayTest, dir string, extraFiles ...st
 	ovb, _ := json.Marshal(ov)
 	ovFile := filepath.Join(dir, "overlay.json")
 	os.WriteFile(ovFile, ovb, 0o644)
-	args := []string{"test", "-tags", "verif", "-overlay", ovFile, "-v", "-vet=off", "-count=1", "-timeout", "900s", "-run", "^TestVerif", "."}
+	args := []string{"test", "-tags", "verif", "-overlay", ovFile, "-v", "-vet=off", "-count=1", "-timeout", "600s", "-run", "^TestVerif", "."}
 	if overlayRace {
 		// a bounded stand-in asked for the race detector (header "race: true")
 		args = append([]string{"test", "-race"}, args[1:]...)
